@@ -197,7 +197,9 @@ class CBInterp:
         if k in ("par", "bpar"):
             return self.eval(e[1])
         if k == "nz":
-            return self.num(e[1]) != 0
+            # the same robustness rule as for written comparisons (a value that differs from 0 only by rounding noise is outside the domain);
+            # the translation tests '<> 0.0', which goes through sem.compare as well
+            return sem.compare("<>", self.num(e[1]), Fraction(0))
         if k == "neg":
             return -self.num(e[1])
         if k == "not":
